@@ -63,7 +63,12 @@ impl Masker for LiterateHaskellMasker {
 
             let end_loc = location + line.len();
             if (!in_code_env && self.text) || (in_code_env && self.code) {
-                let start_loc = if line_is_bird { location + 2 } else { location };
+                // A bird track may be shorter than `> ` (e.g. a lone `>`).
+                let start_loc = if line_is_bird {
+                    (location + 2).min(end_loc)
+                } else {
+                    location
+                };
                 mask.push_allowed(Span::new(start_loc, end_loc));
             }
 
